@@ -10,7 +10,7 @@ _spec.loader.exec_module(_c03)
 
 UNITS = []
 for _u in _c03.UNITS:
-    if _u["name"] in ("List.layout", "List.insert", "List.remove", "List.swap"):
+    if _u["name"] in ("List.layout", "List.insert", "List.remove", "List.removeFront", "List.removeBack", "List.swap"):
         _d = dict(_u)
         _d["prop"] = "C05"
         UNITS.append(_d)
